@@ -8,12 +8,13 @@ import (
 	"os"
 	"strings"
 	"testing"
+	"time"
 
 	"github.com/internetarchive/Zeno/internal/pkg/veriflib"
 	"pgregory.net/rapid"
 )
 
-const c10MaxBody = 256 << 10
+const c10MaxBody = 128 << 10
 
 // per-target token dictionaries: inserted, swapped for one another, and used as nesting pairs
 var c10Dict = map[string][]string{
@@ -166,7 +167,7 @@ func c10Mutate(t *rapid.T, target string, doc []byte, others []c10Doc) ([]byte, 
 		case "nest": // nesting amplification
 			pairs := c10Nest[target]
 			pr := pairs[rapid.IntRange(0, len(pairs)-1).Draw(t, "pair")]
-			n := rapid.SampledFrom([]int{1, 2, 8, 64, 511, 513, 2000, 10001, 40000}).Draw(t, "depth")
+			n := rapid.SampledFrom([]int{1, 2, 8, 13, 15, 64, 511, 513, 2000, 10001, 25000}).Draw(t, "depth")
 			if n*(len(pr[0])+len(pr[1])) > c10MaxBody {
 				n = c10MaxBody / (len(pr[0]) + len(pr[1]) + 1)
 			}
@@ -224,7 +225,7 @@ func c10Mutate(t *rapid.T, target string, doc []byte, others []c10Doc) ([]byte, 
 
 // genC10Direct: a mutated corpus document of the target.
 func genC10Direct(t *rapid.T, target string) c10Case {
-	docs := c10Corpus(target)
+	docs := c10Bases(target)
 	if len(docs) == 0 {
 		t.Fatalf("harness: empty corpus for %s (VERIF_DIR=%q)", target, os.Getenv("VERIF_DIR"))
 	}
@@ -243,7 +244,7 @@ var c10HeaderTexts = []string{"", "/relative/path", "relative", "../up?x=1#f", "
 func genC10Chain(t *rapid.T) c10Case {
 	src := rapid.SampledFrom(c10Targets[1:]).Draw(t, "src")
 	nat := c10Naturals[src]
-	docs := c10Corpus(src)
+	docs := c10Bases(src)
 	i := rapid.IntRange(0, len(docs)-1).Draw(t, "doc")
 	c := c10Case{Target: "chain", CT: nat.CT, Server: nat.Server, MaxHops: 1}
 	body := docs[i].Data
@@ -286,7 +287,7 @@ func genC10Chain(t *rapid.T) c10Case {
 		case 0:
 			return rapid.SampledFrom(c10HeaderTexts).Draw(t, label)
 		case 1:
-			ld := c10Corpus("linkheader")
+			ld := c10Bases("linkheader")
 			tmp, _ := c10Mutate(t, "linkheader", ld[rapid.IntRange(0, len(ld)-1).Draw(t, label+"doc")].Data, ld)
 			return string(tmp[:min(len(tmp), 8192)])
 		case 2:
@@ -383,6 +384,18 @@ func TestVerif_C10_Corpus(t *testing.T) {
 		defer c10JournalEnd("C10/" + target)
 	}
 	n := 0
+	if os.Getenv("VERIF_C10_TIMES") != "" { // development aid: which corpus documents are slow
+		for _, target := range c10Targets[1:] {
+			for _, d := range c10Corpus(target) {
+				t0 := time.Now()
+				propC10(t, c10Case{Target: target, Body: d.Data, Note: d.Name})
+				if el := time.Since(t0); el > 100*time.Millisecond {
+					fmt.Printf("SLOW %-12s %-40s %8d bytes %v\n", target, d.Name, len(d.Data), el)
+				}
+			}
+		}
+		return
+	}
 	for _, target := range c10Targets[1:] {
 		docs := c10Corpus(target)
 		if len(c10Committed(target)) == 0 {
